@@ -8,7 +8,9 @@ T-corr: (a) write-set audit: during real runs every slot (machine attribute) is 
         (b) impl-vs-impl metamorphic runs = failing-input search for the property itself: random legal
         pipelines with validation on (L, R, [min,max]) and on (R, L, [-max,-min]); products compared
         bit for bit; without validation the right dataset must be empty; a cross-checking step without
-        filling must leave the left disparity map unchanged."""
+        filling must leave the left disparity map unchanged;
+        (c) whole-pipeline stream (harness/props/c08_pipeline.py): the composed model Model/PipelineRun.v (extracted by
+        Extract/X21.v) against whole real runs, state after every step, plus the mirrored real run step by step."""
 import hashlib
 
 import numpy as np
